@@ -629,8 +629,45 @@ def fit_info_cases(ctx, count):
             bad('reported matrix is not the generating one', matrix=M.tolist(), truth=A.tolist())
 
 
+def build_matrix_forms(ctx, count):
+    """build_fit_matrix accepts the rotation and the scale each as a scalar or as a pair: all four combinations must
+    give the matrix of the decomposition (a scalar stands for the pair of equal values)"""
+    from tweakwcs import linearfit
+    rng = ctx.rng
+    fixed = [(30.0, 30.0, 1.2, 0.8), (-170.0, -170.0, 0.5, 2.0), (90.0, 90.0, 1.0, 3.0), (10.0, 25.0, 1.1, 1.1),
+             (179.0, -179.0, 0.9, 0.9), (0.0, 0.0, 2.0, 0.25)]
+    for it in range(count):
+        if it < len(fixed):
+            rx, ry, sx, sy = fixed[it]
+        else:
+            rx = rng.uniform(-180, 180)
+            ry = rx if rng.random() < 0.5 else rx + rng.uniform(-20, 20)
+            sx = rng.uniform(0.2, 3.0)
+            sy = sx if rng.random() < 0.3 else rng.uniform(0.2, 3.0)
+        forms = [('pair-pair', (rx, ry), (sx, sy), ((rx, ry), (sx, sy)))]
+        if rx == ry:
+            forms.append(('scalar-pair', rx, (sx, sy), ((rx, rx), (sx, sy))))
+        if sx == sy:
+            forms.append(('pair-scalar', (rx, ry), sx, ((rx, ry), (sx, sx))))
+        if rx == ry and sx == sy:
+            forms.append(('scalar-scalar', rx, sx, ((rx, rx), (sx, sx))))
+        for name, rot, scale, (rr, ss) in forms:
+            case = {'kind': 'build_matrix_form', 'form': name, 'rot': [rx, ry], 'scale': [sx, sy]}
+            ctx.case(case, nontrivial=True, branch='build_fit_matrix:' + name)
+            try:
+                B = np.asarray(linearfit.build_fit_matrix(rot, scale), dtype=float)
+            except Exception as e:   # noqa
+                ctx.oracle_fail(case, {'what': 'build_fit_matrix raised', 'exc': repr(e)[:160]})
+                continue
+            R = rebuild(rr, ss)
+            if B.shape != (2, 2) or float(np.max(np.abs(B - R))) > TOL * max(sx, sy):
+                ctx.oracle_fail(case, {'what': 'build_fit_matrix(%s) is not the matrix of the decomposition' % name,
+                                       'built': B.tolist(), 'expected': R.tolist()})
+
+
 def run(ctx):
     lines, pending = [], []
+    build_matrix_forms(ctx, ctx.n(60, 1000))
     for case, d in corpus_cases():
         check_case(ctx, case, d, lines, pending)
     direct_build_fit(ctx, lines, pending)
@@ -657,6 +694,8 @@ def replay(ctx, payload):
         for c2, d in corpus_cases():
             if all(c2[k] == case.get(k) for k in ('name', 'geom', 'wmode')):
                 check_case(ctx, c2, d, lines, pending)
+    elif case.get('kind') == 'build_matrix_form':
+        build_matrix_forms(ctx, 80)
     elif case.get('kind') == 'fit_info':
         # the fixed part of the family (proper / improper, both sides of the cut) and a fresh random part
         fit_info_cases(ctx, 60)
